@@ -55,8 +55,9 @@ def invoke(obj, name, kw, model):
     """Call a query.  kw may carry the reserved key "@pos": the LRU keys
     entries by the argument pattern at the call site, so the same logical
     query is asked (0) with keywords, (1) positionally, (2) positionally with
-    the first omitted parameter given its default explicitly -- the patterns
-    the library's own internal callers use."""
+    the first omitted parameter given its default explicitly, (3) with
+    keywords and one omitted parameter passed as its default by keyword --
+    the patterns the library's own internal callers use."""
     from registry.specs import resolve_arg
     if name.startswith("attr:"):
         return getattr(obj, name[5:])
@@ -73,7 +74,7 @@ def invoke(obj, name, kw, model):
             for k, v in kw.items() if not k.startswith("@")}
     f = getattr(obj, name)
     pargs = []
-    if pos:
+    if pos in (1, 2):
         try:
             params = list(inspect.signature(f).parameters.values())
         except (TypeError, ValueError):
@@ -89,6 +90,20 @@ def invoke(obj, name, kw, model):
                 pos = 1
             else:
                 break
+    if pos == 3:
+        # keywords, one omitted parameter passed as its default by keyword
+        # (internal callers: self.nsi_degree(typical_weight=typical_weight))
+        try:
+            omitted = [prm for prm in
+                       inspect.signature(f).parameters.values()
+                       if prm.name not in args and prm.default is not prm.empty
+                       and prm.kind in (prm.POSITIONAL_OR_KEYWORD,
+                                        prm.KEYWORD_ONLY)]
+        except (TypeError, ValueError):
+            omitted = []
+        if omitted:
+            prm = omitted[kw.get("@k", 0) % len(omitted)]
+            args[prm.name] = prm.default
     out = f(*pargs, **args)
     if hasattr(out, "__next__"):
         out = list(out)
@@ -98,7 +113,11 @@ def invoke(obj, name, kw, model):
 def with_pos(kw, rnd):
     """The query pattern kw with a seeded call-site pattern."""
     c = rnd.random()
-    return kw if c < 0.5 else dict(kw, **{"@pos": 1 if c < 0.8 else 2})
+    if c < 0.45:
+        return kw
+    if c < 0.85:
+        return dict(kw, **{"@pos": 1 if c < 0.7 else 2})
+    return dict(kw, **{"@pos": 3, "@k": rnd.randrange(4)})
 
 
 def snap(v):
